@@ -1,6 +1,6 @@
 #!/usr/bin/env python3
 # merge evidence parts written by sub-monitors of one property into evidence/<id>.json
-import json, sys, time
+import json, os, sys, time
 pid, t0, out = sys.argv[1], float(sys.argv[2]), sys.argv[3]
 parts = [json.load(open(p)) for p in sys.argv[4:]]
 cov = {"evaluations": 0, "distinct_nontrivial": 0, "rule": "", "samples": [], "parts": {}}
@@ -26,6 +26,6 @@ for p, path in zip(parts, sys.argv[4:]):
     if "inconclusive" in c:
         cov.setdefault("inconclusive", []).extend(c["inconclusive"])
 cov["rule"] = " ;; ".join(rules)
-ev = {"property_id": pid, "tier": parts[0]["tier"], "seed": parts[0]["seed"], "level": parts[0]["level"],
+ev = {"property_id": pid, "tier": os.environ.get("VERIF_TIER") or parts[0]["tier"], "seed": parts[0]["seed"], "level": parts[0]["level"],
       "coverage": cov, "assumptions": assumptions, "wall_s": time.time() - t0, "violations": viol}
 json.dump(ev, open(out, "w"), indent=1)
